@@ -464,6 +464,9 @@ impl Property for C06 {
     fn shard_size(&self) -> u64 {
         50
     }
+    fn shrink_iters(&self) -> u32 {
+        300
+    }
     fn classes(&self) -> Vec<ClassSpec> {
         self.classes.iter().map(|c| c.0.clone()).collect()
     }
